@@ -76,21 +76,27 @@ Lemma Psi_hv_form K G Gn tau (E : M) : Psi_hv (K, G, Gn, tau) E = Gn * tau * nds
 Proof. dm E. cnum. reflexivity. Qed.
 
 (* ---- bridges: the composite kernels expressed through the trial strain *)
-Ltac kill_lss lss := repeat match goal with |- context [lss ?X] => destruct (lss X) end.
+Ltac kill_trial := match goal with |- context [_compute_elastic_logarithmic_strain ?f ?a ?b ?c ?d ?e ?g ?h ?i ?j ?k ?l ?m ?n ?o ?q ?r ?s ?t] =>
+  destruct (_compute_elastic_logarithmic_strain f a b c d e g h i j k l m n o q r s t) as [[[[[[[[? ?] ?] ?] ?] ?] ?] ?] ?] end.
+Lemma c11_trial_same : @c11_elastic_log_strain R NumR = @_compute_elastic_logarithmic_strain R NumR.
+Proof. reflexivity. Qed.
 
 Lemma E_hv_bridge lss K G Gn tau (Fv : M) dt (H : M) :
   E_hv lss (K, G, Gn, tau) Fv dt H
   = E_hv_eq (K, G, Gn, tau) H + Wneq_hv (K, G, Gn, tau) (relax_hv (K, G, Gn, tau) dt (Etrial lss H Fv))
     + dt * Psi_hv (K, G, Gn, tau) (mdiv (inc_hv (K, G, Gn, tau) dt (Etrial lss H Fv)) dt).
-Proof. dm Fv. dm H. cnum0. reflexivity. Qed.
+Proof. dm Fv. dm H. cnum0. kill_trial. cnum0. reflexivity. Qed.
 
 Lemma D_hv_bridge lss K G Gn tau (Fv : M) dt (H : M) :
   D_hv lss (K, G, Gn, tau) Fv dt H = dt * Psi_hv (K, G, Gn, tau) (mdiv (inc_hv (K, G, Gn, tau) dt (Etrial lss H Fv)) dt).
-Proof. dm Fv. dm H. cnum0. reflexivity. Qed.
+Proof. dm Fv. dm H. cnum0. kill_trial. cnum0. reflexivity. Qed.
 
 Lemma state_new_hv_bridge lss expm K G Gn tau (Fv : M) dt (H : M) :
   state_new_hv lss expm (K, G, Gn, tau) Fv dt H = mmul (expm (inc_hv (K, G, Gn, tau) dt (Etrial lss H Fv))) Fv.
-Proof. dm Fv. dm H. cnum0. reflexivity. Qed.
+Proof.
+  dm Fv. dm H. unfold state_new_hv, c11_state_new. rewrite c11_trial_same. cnum0. kill_trial. cnum0.
+  match goal with |- context [expm ?X] => destruct (expm X) end. reflexivity.
+Qed.
 
 
 (* ---- three branches *)
